@@ -5,7 +5,6 @@ CONSTANTS
   MaxDepth = 4
   PosVals <- PosNone
   Thens = {"none", "assign", "ro"}
-  UnsetAsCoded = FALSE
   MaxH = 100
 VIEW view
 INVARIANT TypeOK
